@@ -202,6 +202,57 @@ def _check_wrapped_impl(args) -> dict:
 	return {'failures': failures, 'nodes': nodes}
 
 
+def own_quotation(n: int, line: str, bc: int, ec: int) -> list[str]:
+	"""PySrc.OwnQuotation (cross-checked with the table TLC evaluates)"""
+	return [f'({n}) >>> {line}', ' ' * (len(str(n)) + 7 + bc) + '^' * max(1, ec - bc)]
+
+
+def _check_own_quotation_lines(args) -> dict:
+	return _guard(_check_own_quotation_lines_impl, args)
+
+
+def _check_own_quotation_lines_impl(args) -> dict:
+	"""a statement the own parser rejects, placed on line n: the summary ends in exactly the two lines of PySrc.OwnQuotation"""
+	jobs, = args
+	from harness import compat
+	compat.patch_rules()
+	from data.syntax.py_rules import py_rules
+	from rogw.tranp.errors import Errors
+	from rogw.tranp.implements.syntax.tranp.syntax import SyntaxParser
+	from rogw.tranp.implements.syntax.tranp.tokenizer import Tokenizer
+	rules = py_rules()
+	failures, nodes = [], 0
+	import ast as _ast
+	import re
+	for n, indent, stmt in jobs:
+		# n - 1 filler lines; an indented statement needs its block opener on the line before
+		lines = ['p = 0'] * (n - 1)
+		if indent:
+			lines[-1] = 'if p:'
+		line = indent + stmt
+		text = '\n'.join(lines + [line]) + '\nq = 0\n'
+		try:
+			SyntaxParser(rules, Tokenizer()).parse(text, 'entry')
+			failures.append({'clause': 'OwnParserQuotation', 'detail': f'{line!r} on line {n} is accepted', 'text': text, 'kind': 'own-parser:accepted'})
+			continue
+		except Errors.Syntax as e:
+			summary = str(e)
+		# which token the parser blames is its own business (C11); it is spelled once in the statement, so its
+		# columns are known by construction
+		m = re.search(r"token: (.*)$", summary.split('\n')[0])
+		token = _ast.literal_eval(m.group(1)) if m else None
+		if token is None or line.count(token) != 1:
+			failures.append({'clause': 'OwnParserQuotation', 'detail': f'{line!r} on line {n}: the summary names {summary.splitlines()[0]!r}, not a token of the offending line', 'text': text, 'kind': 'own-parser:token'})
+			continue
+		nodes += 1
+		bc = line.index(token)
+		want = own_quotation(n, line, bc, bc + len(token))
+		got = summary.split('\n')[-2:]
+		if got != want:
+			failures.append({'clause': 'OwnParserQuotation', 'detail': f'{line!r} on line {n}: quotation {got} where the rule gives {want}', 'text': text, 'kind': f'own-parser:line-{len(str(n))}-digits'})
+	return {'failures': failures, 'nodes': nodes}
+
+
 def _check_own_parser_carets(args) -> dict:
 	return _guard(_check_own_parser_carets_impl, args)
 
@@ -373,16 +424,28 @@ def run(ctx: Ctx) -> int:
 			'x = "\u65e5\u672c\u8a9e" 3\n', 'x = "\u65e5\u672c" + "\u8a9e" )\n',
 		]
 		r5 = list(ex.map(_check_own_parser_carets, [(bad[i::16],) for i in range(16)]))
+		# the line-number axis: the same rejected statements on lines of one, two and three digits (thorough: four)
+		own_jobs = [(n, indent, stmt)
+			for n in ([2, 9, 10, 11, 99, 100, 101] if quick else [2, 9, 10, 11, 99, 100, 101, 999, 1000])
+			for indent in ('', '\t')
+			for stmt in ('b = 1 22', 'bb = (7 ]', 'c = aa bbb', 'ddd = 5 + * 3')]
+		r6 = list(ex.map(_check_own_quotation_lines, [(own_jobs[i::16],) for i in range(16)]))
 		from harness import real_modules
 		modules = real_modules.QUICK if quick else real_modules.LOAD_OK
 		r3 = list(ex.map(_real_module, modules))
-	failures = [f for r in r1 + r2 + r3 + r4 + r5 for f in r['failures']]
+	failures = [f for r in r1 + r2 + r3 + r4 + r5 + r6 for f in r['failures']]
 	# the harness's MarkRange is the specification's (table evaluated by TLC)
 	mres = tlc.run('PySrcEmit', 'PySrc_1.cfg', workers=1, timeout=300)
 	for row in (json.loads(x) for x in mres.lines('MARK ')):
 		if list(mark_range(0, row['bc'], 0 if row['same'] else 1, row['ec'], row['linelen'])) != list(row['range']):
 			raise Machinery(f'harness mark_range and PySrc.MarkRange disagree on {row}')
-	ctx.log(f'wrapped layouts: {sum(r["nodes"] for r in r4)} nodes of multi-line programs quoted by the MarkRange rule; own parser: {sum(r["nodes"] for r in r5)} rejected texts with the carets under the cause token')
+	own_rows = [json.loads(x) for x in mres.lines('OWNQ ')]
+	if len(own_rows) < 100:
+		raise Machinery(f'PySrc emitted {len(own_rows)} rows of the own-parser quotation table')
+	for row in own_rows:
+		if own_quotation(row['n'], 'b = = 22', row['bc'], row['ec']) != list(row['q']):
+			raise Machinery(f'harness own_quotation and PySrc.OwnQuotation disagree on {row}')
+	ctx.log(f'wrapped layouts: {sum(r["nodes"] for r in r4)} nodes of multi-line programs quoted by the MarkRange rule; own parser: {sum(r["nodes"] for r in r5)} rejected texts with the carets under the cause token, {sum(r["nodes"] for r in r6)} quotations on lines of 1-3 digits equal to OwnQuotation')
 	nodes = sum(r['nodes'] for r in r1)
 	ctx.log(f'{nodes} expression nodes (fresh + restored from the cache encoding), {len(stmts)} statements, {sum(r["nodes"] for r in r3)} nodes of {len(modules)} real modules: {len(failures)} discrepancies')
 	groups: dict[str, list] = {}
